@@ -202,3 +202,94 @@ theorem C03_connect_gate_tied (st : AState) (now last : Int) :
     (st == .unknown && decide (now - last ≥ (Gen.Limits.AppConnectAttemptBackoff : Int))) =
       Gen.Decisions.needsConnectAttempt (Gen.Limits.AppConnectAttemptBackoff : Int) last now st.code :=
   tied_needsConnectAttempt st now last
+
+/-- **C03 (every other connect failure is retried after the back-off).**  An application waiting for a connect whose
+attempt fails with anything but 410 / 401 (409, another status, a transport error, a malformed reply) is still waiting
+afterwards, with the same back-off window: the first agent query at or after the end of that window launches a fresh
+preconnect for it — the failure is not the end of the application. -/
+theorem C03_retried_after_backoff (s : PState) (cfg : AppCfg) (app : AppM) (o : Outcome)
+    (ha : getApp s cfg.handle = some app) (hu : app.state = .unknown)
+    (h410 : o.code ≠ 410) (h401 : o.code ≠ 401) (d : Int)
+    (hb : s.now + d - app.lastAttempt ≥ (AppConnectAttemptBackoff : Int)) :
+    let s1 := connectFailed s cfg.handle o
+    let s2 : PState := { s1 with now := s1.now + d }
+    ∃ r ∈ (processAppInfo s2 none cfg).2.2, r.cat = .preconnect ∧ r.app = cfg.handle ∧ r.license = app.cfg.license := by
+  intro s1 s2
+  -- after the failure the application is still waiting for a connect, with the same last attempt
+  have hget : ∀ a : AppM, getApp (setApp s cfg.handle a) cfg.handle = some a := fun a => getApp_setApp_same s cfg.handle a
+  have hv := (C03_connect_verdicts s cfg.handle app ha hu o).2.2 h410 h401
+  have hs1 : ∃ app1, getApp s1 cfg.handle = some app1 ∧ app1.state = .unknown ∧ app1.lastAttempt = app.lastAttempt ∧ app1.cfg = app.cfg := by
+    simp only [s1, connectFailed, ha, hu, bne_self_eq_false, Bool.false_eq_true, if_false]
+    refine ⟨_, hget _, ?_, rfl, rfl⟩
+    simp only [connectFailed, ha, hu, bne_self_eq_false, Bool.false_eq_true, if_false, hget, Option.map_some] at hv
+    simpa using hv
+  obtain ⟨app1, hg1, hst1, hla1, hcfg1⟩ := hs1
+  have hnow : s1.now = s.now := by
+    simp only [s1, connectFailed, ha, hu, bne_self_eq_false, Bool.false_eq_true, if_false]
+    rfl
+  have hg2 : getApp s2 cfg.handle = some app1 := hg1
+  -- the agent's query reaches considerConnect with the application still unknown and the back-off expired
+  simp only [processAppInfo, hg2]
+  have hget2 : ∀ a : AppM, getApp (setApp s2 cfg.handle a) cfg.handle = some a := fun a => getApp_setApp_same s2 cfg.handle a
+  have hgate := (C03_connect_gating (setApp s2 cfg.handle { app1 with lastActivity := s2.now }) cfg.handle
+    { app1 with lastActivity := s2.now } (hget2 _)).2 hst1 (by
+      show (setApp s2 cfg.handle _).now - app1.lastAttempt ≥ _
+      have : (setApp s2 cfg.handle { app1 with lastActivity := s2.now }).now = s1.now + d := rfl
+      rw [this, hla1, hnow]; exact hb)
+  obtain ⟨r, hr, hc, hl, hap⟩ := hgate
+  refine ⟨r, ?_, hc, hap, by rw [hl, hcfg1]⟩
+  simp only [hr]
+  simp
+
+/-- **C03 (a restart answer during harvest invalidates the run and leads to a fresh connect).**  When a harvest request of
+a connected application is answered with 401 or 409: the run is no longer held (agents presenting it are not told "still
+valid", data under it is dropped — `C03_still_valid_iff`, `C03_unknown_run_dropped`), the application goes back to waiting
+for a connect, and the only requests this can emit are preconnects for that application (at once if the back-off allows,
+otherwise at the next agent query after it: `C03_retried_after_backoff`). -/
+theorem C03_restart_during_harvest (s : PState) (req : Req) (run : RunM) (app : AppM) (o : Outcome)
+    (hr : getRun s req.run = some run) (ha : getApp s run.app = some app) (hst : app.state = .connected)
+    (ho : o.code = 401 ∨ o.code = 409) :
+    let s' := (harvestVerdict s req o).1
+    getRun s' req.run = none ∧ appState s' run.app = some .unknown ∧
+    (∀ r ∈ (harvestVerdict s req o).2, r.cat = .preconnect ∧ r.app = run.app) := by
+  intro s'
+  have hsave : Gen.Status.shouldSaveHarvestData o.code = false := by
+    rcases ho with h | h <;> simp [Gen.Status.shouldSaveHarvestData, h]
+  have hdisc : Gen.Status.isDisconnect o.code false = false := by
+    rcases ho with h | h <;> simp [Gen.Status.isDisconnect, h]
+  have hrest : Gen.Status.isRestartException o.code = true := by
+    rcases ho with h | h <;> simp [Gen.Status.isRestartException, h]
+  have hne : (app.state == AState.disconnected) = false := by simp [hst]
+  have hv : harvestVerdict s req o =
+      considerConnect (shutdownRun (setApp (setRun s req.run run) run.app { app with state := .unknown }) req.run) run.app := by
+    unfold harvestVerdict
+    simp only [hr, hsave, Bool.false_eq_true, if_false]
+    have hga : getApp (setRun s req.run run) run.app = some app := by rw [getApp_setRun]; exact ha
+    simp only [hga, hdisc, hne, Bool.or_self, Bool.false_eq_true, if_false, hrest, Bool.true_or, if_true]
+  have hfr := considerConnect_frame (shutdownRun (setApp (setRun s req.run run) run.app { app with state := .unknown }) req.run) run.app
+  refine ⟨?_, ?_, ?_⟩
+  · -- the run is gone
+    have h1 : runApp s' req.run = none := by
+      show runApp (harvestVerdict s req o).1 req.run = none
+      rw [hv, hfr.2]
+      unfold runApp shutdownRun
+      rw [getRun_delRun]; simp
+    unfold runApp at h1
+    cases hg : getRun s' req.run with
+    | none => rfl
+    | some x => rw [hg] at h1; cases h1
+  · show appState (harvestVerdict s req o).1 run.app = some .unknown
+    rw [hv, hfr.1]
+    unfold shutdownRun
+    rw [appState_delRun, appState_setApp]
+    simp
+  · intro r hrm
+    rw [hv] at hrm
+    unfold considerConnect at hrm
+    split at hrm
+    · simp at hrm
+    · split at hrm
+      · simp only [List.mem_singleton] at hrm
+        subst hrm
+        exact ⟨rfl, rfl⟩
+      · simp at hrm
